@@ -217,8 +217,13 @@ def run_check(prop, tier, seed, replay=None, jobs=None, quiet=False):
             'wall_s': round(time.time() - t0, 2),
             'violations': len(unknown),
         }
-        os.makedirs(os.path.join(VERIF, 'evidence'), exist_ok=True)
-        evp = os.path.join(VERIF, 'evidence', '%s.json' % prop)
+        # evidence/ describes runs against /repo only; a run against a scratch copy (VT_REPO: self-test mutants, seeded
+        # changes) writes its evidence next to its other scratch output
+        evdir = os.path.join(VERIF, 'evidence')
+        if os.path.realpath(os.environ.get('VT_REPO', '/repo')) != os.path.realpath('/repo'):
+            evdir = os.path.join(VERIF, '.work', 'evidence-scratch')
+        os.makedirs(evdir, exist_ok=True)
+        evp = os.path.join(evdir, '%s.json' % prop)
         with open(evp, 'w') as f:
             json.dump(ev, f, indent=1, default=repr)
         try:
